@@ -17,7 +17,7 @@ from .seams import SimSignal, SimHang, StepBudget, SimDeadlock, SimStop, Unmodel
 LAST_WORLD = None
 LATE_PER_HELPER_S = 30.0  # virtual seconds allowed per helper invocation (anchor: 1 s timeout)
 LATE_BASE_S = 1.0
-STEP_BUDGET = 50_000_000
+STEP_BUDGET = 20_000_000  # the heaviest corpus compile (first in a process) needs 5e5 events
 VT_BUDGET_S = 900.0  # virtual seconds one compile_code call may take before it counts as "never returns"
 
 
@@ -183,6 +183,7 @@ def _call_guarded(world, fn, budget=STEP_BUDGET, vt_budget=VT_BUDGET_S):
         try:
             return "ok", fn()
         finally:
+            sc.limit = None  # a plain store first: calling a function here would itself be an event past the budget
             sc.end()
             world.clock.deadline = None
     except Unmodelled as e:
